@@ -252,7 +252,8 @@ def bounded(tier, seed):
             return n, 'sigFromPy(%s(...)) = %r, the wrapper declares %r' % (name, marshal.sigFromPy(v), code), {'wrapper': name}
     # regression cases of the repaired inference defects (and their mirror images), checked on every run
     fixed_cases = [[1, marshal.Int64(2**40)], {'a': 1, 'b': marshal.UInt64(2**64 - 1)}, {'k0': -1, 'k1': True}, [marshal.Byte(1), 300],
-                   {'a': 'x', 'b': marshal.ObjectPath('/p')}, [5, True], [True, 5], ['a', marshal.ObjectPath('/b')], {'k0': 2**31 - 1, 'k1': marshal.Int64(-2**63)}]
+                   {'a': 'x', 'b': marshal.ObjectPath('/p')}, [5, True], [True, 5], ['a', marshal.ObjectPath('/b')], {'k0': 2**31 - 1, 'k1': marshal.Int64(-2**63)},
+                   {marshal.ObjectPath('/a'): 1}, {marshal.Signature('i'): 's'}, {marshal.Byte(1): 'x'}, {marshal.UInt32(7): [1, 2]}, [{marshal.ObjectPath('/a'): 'v'}], (1, 'a'), (1, 2), ((1, 'a'), (1, 2))]
     for v in fixed_cases:
         n += 1
         f = infer_case(v, True)
